@@ -31,6 +31,7 @@ fn main() {
         "C07-direct" => vcore::props::c07::run_direct(&args, &mut rep),
         "C07-random" => vcore::props::c07::run_random(&args, &mut rep),
         "C08-direct" => vcore::props::c07::run_c08_direct(&args, &mut rep),
+        "C08-scalars" => vcore::props::c07::run_c08_scalars(&args, &mut rep),
         "C08-random" => vcore::props::c07::run_c08_random(&args, &mut rep),
         "C05-closure" => vcore::props::closure::run_c05_component(&args, &mut rep),
         "C05-closure-cli" => vcore::props::closure::run_c05_cli(&args, &mut rep),
